@@ -32,11 +32,17 @@ CheckTrace(tr) ==
                  {<<k, "differs-from-alone">> : k \in {j \in 1..Len(tr.ev) :
                       \/ /\ tr.ev[j].call \in DetCalls
                          /\ (tr.ev[j].ret # tr.solo[j].ret \/ (tr.ev[j].exc # "") # tr.solo[j].failed)
-                      \* the annotations a solver's constraints carry after simplify() are its own
-                      \/ /\ tr.ev[j].call = "simplify" /\ tr.ev[j].exc = ""
-                         /\ tr.ev[j].anntags # tr.solo[j].anntags}}
+                      }}
+      \* annotations are the caller's own: a thread that never stated a constraint over an annotated variable finds no
+      \* annotation on its solver's constraints after simplify() (Z3-side simplification re-attaches the annotations
+      \* recorded for a variable NAME; that record is per thread).  Not compared with the alone run: claripy's
+      \* process-wide simplification cache makes the tags of ANNOTATED users depend on what ran before.
+      usesAnn == \E j \in 1..Len(tr.ev) : tr.ev[j].call = "add" /\ tr.ev[j].annotvar
+      annBad == IF tr.crash # "" \/ usesAnn THEN {} ELSE
+                {<<j, "foreign-annotation">> : j \in {i \in 1..Len(tr.ev) :
+                     tr.ev[i].call = "simplify" /\ tr.ev[i].exc = "" /\ Len(tr.ev[i].anntags) > 0}}
       freshBad == \E a \in 1..Len(tr.fresh) : \E b \in 1..Len(tr.other_fresh) : tr.fresh[a] = tr.other_fresh[b]
-  IN res[2] \cup soloBad
+  IN res[2] \cup soloBad \cup annBad
             \cup (IF tr.crash = "" /\ freshBad THEN {<<0, "fresh-name-collision">>} ELSE {})
             \cup (IF tr.crash # "" THEN {<<0, "thread-crashed">>} ELSE {})
             \cup (IF tr.crash = "" /\ ctxBad THEN {<<0, "context-shared">>} ELSE {})
